@@ -563,6 +563,7 @@ func (ex *Exec) doCall(fr *frame, st *State, cc *ssa.CallCommon, fnv Val, args [
 		ex.setResult(st, instr, ex.builtin(st, b, cc, args, pos))
 		return
 	}
+	ex.callSiteAsserts(fr, st, cc, instr, pos)
 	if cc.IsInvoke() {
 		recv := fnv
 		if recv == nil {
@@ -1622,4 +1623,87 @@ func (ex *Exec) contractCallBehaviors(fr *frame, st *State, c *FuncContract, nam
 		ex.assumeEnsures(bc, st, pre, b, sig, res)
 	}
 	return res
+}
+
+// callSiteAsserts: "assert call:<callee>[:k] expr" clauses of the function under check are obligations in the state
+// just before the k-th (in source order, 0-based; every site when k is omitted) call to a callee of that name.
+func (ex *Exec) callSiteAsserts(fr *frame, st *State, cc *ssa.CallCommon, instr *ssa.Call, pos string) {
+	if instr == nil {
+		return
+	}
+	ex.siteAsserts(fr, st, cc, instr, "call", pos)
+}
+
+// siteAsserts handles "assert call:<name>[:k] e" and "assert go:<name>[:k] e" (the goroutine start itself is not
+// modelled, but what it is started with can be pinned). arg0, arg1, ... name the call's arguments.
+func (ex *Exec) siteAsserts(fr *frame, st *State, cc *ssa.CallCommon, instr ssa.Instruction, kind string, pos string) {
+	// (asserts also apply inside callees executed in place: they are part of the behaviour of the function under check)
+	if ex.topC == nil || len(ex.topC.Asserts) == 0 || instr == nil || ex.noOblige > 0 {
+		return
+	}
+	name := ""
+	if cc.IsInvoke() {
+		name = cc.Method.Name()
+	} else if f := cc.StaticCallee(); f != nil {
+		name = f.Name()
+	}
+	if name == "" {
+		return
+	}
+	// ordinal of this call site among the calls to that name, in block / instruction order
+	ord := 0
+	found := false
+	for _, b := range fr.fn.Blocks {
+		for _, in := range b.Instrs {
+			var common *ssa.CallCommon
+			switch c := in.(type) {
+			case *ssa.Call:
+				if kind == "call" {
+					common = &c.Call
+				}
+			case *ssa.Go:
+				if kind == "go" {
+					common = &c.Call
+				}
+			}
+			if common == nil {
+				continue
+			}
+			n := ""
+			if common.IsInvoke() {
+				n = common.Method.Name()
+			} else if f := common.StaticCallee(); f != nil {
+				n = f.Name()
+			}
+			if n != name {
+				continue
+			}
+			if in == instr {
+				found = true
+				break
+			}
+			ord++
+		}
+		if found {
+			break
+		}
+	}
+	for _, key := range []string{kind + ":" + name, fmt.Sprintf("%s:%s:%d", kind, name, ord)} {
+		for i, cl := range ex.topC.Asserts[key] {
+			var lc *loopCtx
+			ctx := ex.ctxFor(fr, st, lc)
+			for ai, a := range cc.Args {
+				if v, ok := st.vals[a]; ok {
+					ctx.vars[fmt.Sprintf("arg%d", ai)] = tv{v, a.Type()}
+				} else if k, isConst := a.(*ssa.Const); isConst {
+					ctx.vars[fmt.Sprintf("arg%d", ai)] = tv{ex.val(st, k), a.Type()}
+				}
+			}
+			g := ex.evalBool(ctx, cl)
+			o := ex.oblige(st, fmt.Sprintf("assert[%s]", key), fmt.Sprintf("assertion %d before the call: %s", i, cl.Text), g, pos)
+			if o != nil {
+				o.Clause = cl
+			}
+		}
+	}
 }
